@@ -493,6 +493,45 @@ def border_history(ctx, mon, rng):
     mon.shadows.clear()
 
 
+def two_live_indexes(ctx, mon, rng):
+    """Two indexes alive at once (the class carries mutable class-level defaults): answers and
+    removals on one must not depend on the other."""
+    from plotink import spatial_grid
+    built = []
+    for _ in range(2):
+        _cls, verts = gen_vertices(rng)
+        if len(verts) > 40:
+            verts = verts[:40]
+        xs = [p[0] for v in verts for p in v]
+        ys = [p[1] for v in verts for p in v]
+        if max(xs) - min(xs) + max(ys) - min(ys) == 0:
+            return
+        bins, reverse = rng.choice((1, 2, 3, 4, 7)), rng.random() < 0.5
+        try:
+            built.append((spatial_grid.Index(verts, bins, reverse), verts, bins, reverse, []))
+        except Exception:
+            mon.shadows.clear()
+            return
+    for k in range(rng.randint(4, 12)):
+        index, verts, bins, reverse, removed = built[k % 2]
+        _label, q = gen_query(rng, verts, index)
+        ctx.case(["history: two live indexes used alternately", "bins=%d" % bins],
+                 (tuple(map(tuple, (tuple(map(tuple, v)) for v in verts))), bins, reverse, tuple(removed), tuple(q), "two"),
+                 nontrivial=len(verts) - len(removed) >= 2)
+        try:
+            got = index.nearest(q)
+            if isinstance(got, int) and not isinstance(got, bool) and rng.random() < 0.5:
+                path = got - len(verts) if got >= len(verts) else got
+                if 0 <= path < len(verts) and path not in removed:
+                    index.remove_path(path)
+                    removed.append(path)
+        except Exception as exc:
+            ctx.violation("exception in nearest", {"fn": "nearest", "vertices": verts, "bins": bins, "reverse": reverse,
+                                                   "removed": list(removed), "query": list(q), "exception": repr(exc)})
+            break
+    mon.shadows.clear()
+
+
 def packed_cell_history(ctx, mon, rng):
     """Many short or closed paths whose two ends share one grid cell with a high number (fine
     grids have cells numbered above 256), removed and queried in turn."""
@@ -517,6 +556,9 @@ def run(ctx):
     rng = ctx.rng
     for _ in range(ctx.budget(400, 6_000)):
         packed_cell_history(ctx, mon, rng)
+    for _ in range(ctx.budget(600, 8_000)):
+        two_live_indexes(ctx, mon, rng)
+    ctx.need("history: two live indexes used alternately", 2000)
     for _ in range(ctx.budget(3_000, 40_000)):
         border_history(ctx, mon, rng)
     n = ctx.budget(1_500, 25_000)
